@@ -217,7 +217,7 @@ pub fn run(ctx: &Ctx) -> CheckResult {
     let th = ctx.tier_thorough;
     let pmax = 4096usize;
     let tmax = 24usize;
-    let mults = [2.0, 0.0, -1.0, f64::NAN, 1e300, 2.71828, 1e-5, 1e305, -0.0, f64::INFINITY];
+    let mults = [2.0, 0.0, -1.0, f64::NAN, 1e300, 2.71828, 1e-5, 1e305, -0.0, f64::INFINITY, 0.9999999999999999, 2.0000000000000004, 1e-10, -2.9999999999999996, f64::NEG_INFINITY];
     let big: Vec<usize> = vec![1usize << 31, 1usize << 32, (1usize << 53) + 1, usize::MAX - 1, usize::MAX];
     let large_windows: Vec<usize> = vec![65_536, 1 << 20, 1 << 24, (1 << 24) + 1, 1 << 25];
     // constructor jobs, grouped per kind
@@ -302,7 +302,7 @@ pub fn run(ctx: &Ctx) -> CheckResult {
         for k in ALL_KINDS {
             cfgs.extend(generic_cfgs(k, &[1, 3, 10], &[2, 7]));
             if k.has_mult() {
-                for m in [0.0, -1.0, f64::NAN, 1e300, 2.71828, 1e-5] {
+                for m in [0.0, -1.0, f64::NAN, 1e300, 2.71828, 1e-5, f64::INFINITY, f64::NEG_INFINITY, -0.0, 0.9999999999999999] {
                     cfgs.push(Cfg::pm(k, 4, m));
                 }
             }
@@ -315,6 +315,6 @@ pub fn run(ctx: &Ctx) -> CheckResult {
     }
     res.extra.insert("defaults".into(), json!(ALL_KINDS.iter().map(|k| k.default_cfg().display_text()).collect::<Vec<_>>()));
     res.rule = "case = one constructor call (every period / period tuple / multiplier listed in bounds) under catch_unwind in the overflow-checked build: Err(InvalidParameter) iff some period is 0, else Ok with period()/multiplier()/Display equal to the arguments; plus accessors re-checked after every operation of every history, and Default::default() vs new(documented defaults) output-by-output; non-trivial = constructor with a period > 1 / accessor check after >= 1 operation".into();
-    res.bounds = format!("single-period constructors: every period 0..={pmax}; multi-period: every tuple over 0..={tmax} plus every period 0..={pmax} in each position; multipliers {{2,0,-1,NaN,1e300,2.71828,1e-5,1e305,-0.0,inf}}; boundary periods 2^31, 2^32, 2^53+1, usize::MAX-1, usize::MAX for allocation-free indicators and 2^16, 2^20, 2^24, 2^24+1, 2^25 for windowed ones; accessors (also on a clone, on a bincode-restored copy and on instances overwritten with clone_from) after every op of every history in seq(values+special+reset, {}); Default (also reset / cloned / formatted before its first input) vs new(defaults) on all 4^{} input patterns", if th { 5 } else { 4 }, if th { 5 } else { 4 });
+    res.bounds = format!("single-period constructors: every period 0..={pmax}; multi-period: every tuple over 0..={tmax} plus every period 0..={pmax} in each position; multipliers {{2,0,-1,NaN,1e300,2.71828,1e-5,1e305,-0.0,+-inf, 1-1ulp, 2+1ulp, 1e-10, -3+1ulp}}; boundary periods 2^31, 2^32, 2^53+1, usize::MAX-1, usize::MAX for allocation-free indicators and 2^16, 2^20, 2^24, 2^24+1, 2^25 for windowed ones; accessors (also on a clone, on a bincode-restored copy and on instances overwritten with clone_from) after every op of every history in seq(values+special+reset, {}); Default (also reset / cloned / formatted before its first input) vs new(defaults) on all 4^{} input patterns", if th { 5 } else { 4 }, if th { 5 } else { 4 });
     res
 }
